@@ -1,8 +1,8 @@
 #!/bin/bash
 # usage: tools_mut.sh <prop> <file-relative-to-src/onnx_ir> <sed-expr> [extra run args]
 set -e
-D=$(mktemp -d /tmp/mutXXXX); cp -r /repo/src $D/src
+D=$(mktemp -d /tmp/mutXXXX); cp -r ${BASE:-/repo}/src $D/src
 sed -i "$3" $D/src/onnx_ir/$2
-if diff -rq /repo/src/onnx_ir/$2 $D/src/onnx_ir/$2 >/dev/null; then echo "MUTATION DID NOT APPLY"; rm -rf $D; exit 9; fi
+if diff -rq ${BASE:-/repo}/src/onnx_ir/$2 $D/src/onnx_ir/$2 >/dev/null; then echo "MUTATION DID NOT APPLY"; rm -rf $D; exit 9; fi
 cd /verif; PYVC_REPO=$D python3-vt -m pyvc.run $1 --no-bounded "${@:4}" 2>&1 | grep -E "VIOLATION|^C[0-9]+:|UNDECIDED|unsupported|CHECKER" | cut -c1-220 | sort | uniq | head -12
 rm -rf $D
